@@ -195,12 +195,18 @@ func (p c19) Run(c *core.Ctx) {
 	type litCall struct {
 		f, lit string
 		want   float64
+		neg    bool // written as -f(lit): the result of the call under a unary operator
 	}
-	lits := []litCall{{"inc", "2.5", 3}, {"dec", "2.5", 2}, {"floor", "2.5", 2}, {"ceil", "2.5", 3}, {"integer", "2.5", 2}, {"decimal", "2.5", 0.5},
-		{"inc", "7", 8}, {"dec", "7", 6}, {"round", "7.25", 7}, {"inc", "0", 1}, {"dec", "0", -1}}
+	lits := []litCall{{"inc", "2.5", 3, false}, {"dec", "2.5", 2, false}, {"floor", "2.5", 2, false}, {"ceil", "2.5", 3, false}, {"integer", "2.5", 2, false}, {"decimal", "2.5", 0.5, false},
+		{"inc", "7", 8, false}, {"dec", "7", 6, false}, {"round", "7.25", 7, false}, {"inc", "0", 1, false}, {"dec", "0", -1, false},
+		{"number", "2.5", -2.5, true}, {"number", "7", -7, true}, {"integer", "2.5", -2, true}, {"inc", "2.5", -3, true}, {"decimal", "2.5", -0.5, true}}
 	for k, lc := range lits {
 		idExpr := hast.Bin("+", hast.Num(fmt.Sprint(30000+k)), hast.Bin("*", hast.Var("pass"), hast.Num("1000")))
-		body = append(body, &hast.Stmt{K: hast.SCall, X: hast.Call("cap", idExpr, hast.Call(lc.f, hast.Num(lc.lit)))})
+		call := hast.Call(lc.f, hast.Num(lc.lit))
+		if lc.neg {
+			call = hast.Neg(call)
+		}
+		body = append(body, &hast.Stmt{K: hast.SCall, X: hast.Call("cap", idExpr, call)})
 	}
 	st.HostSet("pass", model.N(0))
 	body = append(body, &hast.Stmt{K: hast.SIf, Clauses: []*hast.Clause{{
